@@ -11,7 +11,7 @@ func verifSP(tag string) *ServiceProvider {
 	sp.MetadataURL = verifNondetURL(tag + ".MetadataURL")
 	sp.AcsURL = verifNondetURL(tag + ".AcsURL")
 	sp.SloURL = verifNondetURL(tag + ".SloURL")
-	sp.IDPMetadata = &EntityDescriptor{EntityID: verifNondetString(tag + ".idpEntityID")}
+	sp.IDPMetadata = verifTrustedIDPMetadata(verifNondetString(tag + ".idpEntityID"))
 	sp.AllowIDPInitiated = verifNondetBool(tag + ".AllowIDPInitiated")
 	return sp
 }
